@@ -101,6 +101,30 @@ func init() {
 			return fr.i.m.Known[strArg(a[0])]
 		},
 		vpkg + "Thorough": func(fr *frame, a []value) value { return fr.i.m.Thorough },
+		vpkg + "And": func(fr *frame, a []value) value {
+			return fr.i.boolv(fr.i.m.C.And(fr.i.term(a[0]), fr.i.term(a[1])))
+		},
+		vpkg + "Or": func(fr *frame, a []value) value {
+			return fr.i.boolv(fr.i.m.C.Or(fr.i.term(a[0]), fr.i.term(a[1])))
+		},
+		vpkg + "Not": func(fr *frame, a []value) value {
+			return fr.i.boolv(fr.i.m.C.Not(fr.i.term(a[0])))
+		},
+		vpkg + "Implies": func(fr *frame, a []value) value {
+			return fr.i.boolv(fr.i.m.C.Implies(fr.i.term(a[0]), fr.i.term(a[1])))
+		},
+		vpkg + "BytesEqual": func(fr *frame, a []value) value {
+			_, eq := fr.i.cmpCells(byteCells(a[0]), byteCells(a[1]))
+			return fr.i.boolv(eq)
+		},
+		vpkg + "BytesLess": func(fr *frame, a []value) value {
+			fr.i.ltPoison = false
+			lt, _ := fr.i.cmpCells(byteCells(a[0]), byteCells(a[1]))
+			if fr.i.ltPoison {
+				unsup("ordering comparison involving an opaque codec token")
+			}
+			return fr.i.boolv(lt)
+		},
 		vpkg + "Symbolic": func(fr *frame, a []value) value { return true },
 		vpkg + "Logf":     func(fr *frame, a []value) value { return nil },
 	} {
